@@ -289,6 +289,7 @@ type Ctx struct {
 	ReplayFile string
 	BinDir     string
 	vioKeys    map[string]int
+	childViolations []string
 }
 
 type LeanReport struct {
